@@ -287,6 +287,111 @@ def pw_stats(reply, dim):
     return its, max(0, int(d["nls"]) - dim * its)
 
 
+# ------------------------------------------------------------------ the closed loop (whole Solve() runs)
+def term_sexp(t, ctr=None):
+    """solver-spec termination -> expression of the termination model (Drv/C10 syntax); None if not expressible"""
+    ctr = ctr if ctr is not None else [0]
+
+    def prim(body):
+        i = ctr[0]; ctr[0] += 1
+        return "(p %d %d %s)" % (i, i, body)
+
+    def gens(g):
+        return "none" if g is None else str(int(g))
+    if t is None:
+        return None
+    k = t[0]
+    if k == "VTR":
+        return prim("vtr %s %s" % (f2b(t[1]), f2b(t[2])))
+    if k == "COG":
+        return prim("cog %s %s" % (f2b(t[1]), gens(t[2])))
+    if k == "NCOG":
+        return prim("ncog %s %s" % (f2b(t[1]), gens(t[2])))
+    if k == "CRT":
+        return prim("crt %s %s" % (f2b(t[1]), f2b(t[2])))
+    if k == "VTRCOG":
+        return prim("vtrcog %s %s %s %s" % (f2b(t[1]), f2b(t[2]), gens(t[3]), f2b(t[4])))
+    if k == "never":
+        return prim("vtr %s %s" % (f2b(-1.0), f2b(0.0)))
+    if k in ("Or", "And"):
+        a = term_sexp(t[1], ctr); b = term_sexp(t[2], ctr)
+        if a is None or b is None:
+            return None
+        return "(%s %s %s)" % ("or" if k == "Or" else "and", a, b)
+    return None
+
+
+def solve_request(spec, rec):
+    """a whole `Solve()` replayed by the closed-loop model: the number of iterations, the stop message, the counters,
+    the resolved limits and the reported best are all predicted (DE/DE2: from the recorded trial vectors; Nelder-Mead:
+    from the initial guess alone)."""
+    solver = spec["solver"]
+    if solver not in ("DE", "DE2", "NM") or not spec["ops"] or spec["ops"][0][0] != "solve" or spec.get("pushing"):
+        return None, None
+    if spec.get("ranges") and spec["ranges"][3] is False:
+        return None, None
+    if spec["cost"][0] == "vector" and not spec.get("reducer"):
+        return None, None
+    if not spec.get("evalmon", True) and solver == "DE2":
+        return None, None
+    te = term_sexp(spec.get("termination"))
+    if te is None or not rec.snaps:
+        return None, None
+    sn = rec.snaps[0]
+    npop = max(spec["npop"], spec["dim"], 4) if solver in ("DE", "DE2") else 1
+    si, se = SCALE[solver]
+    N = spec["dim"]
+    lim = spec.get("limits") or (None, None)
+    head = "C05 solve %s (kind %s) (term %s) (scale %d %d) (limits %s %s) (fuel %d)" % (
+        setup_sexp(spec), {"DE": "de", "DE2": "de2", "NM": "nm"}[solver], te, N * npop * si, N * npop * se,
+        lim_str(lim[0]), lim_str(lim[1]), sn["generations"] + 50)
+    if solver == "NM":
+        if spec["dim"] > 15:
+            return None, None
+        mut = bool(spec.get("inplace")) and spec.get("constraints") is not None and not spec.get("ranges")
+        line = head + " (x0 %s) (radius %s) (inplace %s)" % (fl(spec["x0"]), f2b(0.05), "true" if mut else "false")
+    else:
+        gens = {}
+        for g, cand, t in rec.trials[:sn["n_trials"]]:
+            gens.setdefault(g, []).append(t)
+        groups = [gens[g] for g in sorted(gens)]
+        if any(len(g) != len(rec.init_population) for g in groups):
+            return None, None
+        line = head + " (pop %s) (trials (%s))" % (fll(rec.init_population), " ".join(fll(g) for g in groups))
+
+    def compare(reply):
+        r = common.parse_reply(reply)
+        if r[0] != "ok":
+            return [("%s/solve-model-%s" % (solver, r[0]), "model replied %r" % (reply[:200],))]
+        d = r[1]
+        if solver == "NM" and d.get("ties") == "true":
+            return []          # tie order of numpy.argsort is unspecified: not comparable (counted by the caller)
+        diffs = []
+        if int(d["gens"]) != sn["generations"]:
+            diffs.append("generations model=%s impl=%d" % (d["gens"], sn["generations"]))
+        if int(d["evals"]) != sn["n_cost_calls"]:
+            diffs.append("cost calls model=%s impl=%d" % (d["evals"], sn["n_cost_calls"]))
+        if int(d["evals"]) != sn["evaluations"] and not diffs:
+            diffs.append("evaluations model=%s impl=%d" % (d["evals"], sn["evaluations"]))
+        if int(d["nstep"]) != sn["n_stepmon"]:
+            diffs.append("step records model=%s impl=%d" % (d["nstep"], sn["n_stepmon"]))
+        if d["msg"] != msg_kind(sn.get("stop_msg")):
+            diffs.append("stop message model=%s impl=%s (%r)" % (d["msg"], msg_kind(sn.get("stop_msg")), sn.get("stop_msg")))
+        if d["maxiter"] != lim_str(sn["maxiter"]) or d["maxfun"] != lim_str(sn["maxfun"]):
+            diffs.append("limits model=(%s,%s) impl=(%s,%s)" % (d["maxiter"], d["maxfun"], lim_str(sn["maxiter"]), lim_str(sn["maxfun"])))
+        if (d["live"] == "true") != sn["live"]:
+            diffs.append("live model=%s impl=%s" % (d["live"], sn["live"]))
+        if not diffs:
+            if not same_vec(fvec(d["best"]), sn["bestSolution"]):
+                diffs.append("bestSolution model=%r impl=%r" % (fvec(d["best"]), sn["bestSolution"]))
+            if not same_float(b2f(d["bestE"]), sn["bestEnergy"]):
+                diffs.append("bestEnergy model=%r impl=%r" % (b2f(d["bestE"]), sn["bestEnergy"]))
+        if diffs:
+            return [("%s/solve-diverges" % solver, "Solve(): " + "; ".join(diffs)[:700])]
+        return []
+    return line, compare
+
+
 # ------------------------------------------------------------------ control loop
 SCALE = {"DE": (10, 1000), "DE2": (10, 1000), "NM": (200, 200), "Powell": (1000, 1000)}
 
